@@ -21,7 +21,9 @@ def xargval(v, ver, is_compare=False):
     if isinstance(v, bool) or v is None:
         return ["c", xcanon(v, ver)]
     if isinstance(v, int):
-        return ["i", int(v)]
+        from gen.canon import istr
+
+        return ["i", int(v)] if -10 ** 18 < v < 10 ** 18 else ["I", istr(v)]
     if isinstance(v, T["code"]) or isinstance(v, types.CodeType):
         n = v.co_name
         return ["code", n if isinstance(n, str) else n.decode("latin-1")]
